@@ -134,6 +134,9 @@ def _work(chunk):
             rec["fails"].append("cfg not abstractable: " + str(e))
             out.append(rec)
             continue
+        # correspondence: the Lean model of the front end (Scfg/Model/Ast2Cfg.lean), block for block
+        mrep = drv.run(["FE " + " ".join(toks)])[0]
+        rec["fe_model_same"] = mrep == "ok " + " ".join(ctoks)
         rep = drv.run(["PYA " + " ".join(toks), "PYCFGB " + " ".join(ctoks), "PYSIM"])
         if rep[0] != "ok" or rep[1] != "ok":
             rec["fails"].append("driver parse error")
@@ -229,6 +232,14 @@ def run(ctx):
         violations.append({"signature": {"failure": kinds, "deviation": feats},
                            "what": f"front-end CFG differs from the source's meaning ({kinds}; matches known deviation: {feats}) on {len(items_)} generated functions",
                            "payload": {"source": r["src"], "failures": r["fails"][:4], "count": len(items_)}})
+    femm = [r for r in recs if r.get("fe_model_same") is False]
+    if femm:
+        r = min(femm, key=lambda r: len(r["src"]))
+        path = common.write_replay("C08", {"property": "C08", "kind": "correspondence-broken",
+                                           "correspondence": "Scfg.Model.Ast2Cfg vs AST2SCFGTransformer (blocks, instructions, jump targets)",
+                                           "source": r["src"], "mismatching_programs": len(femm)})
+        broken.append({"signature": {"kind": "front-end-model"}, "replay": path, "nfi": True,
+                       "what": f"front-end model differs from the implementation on {len(femm)} programs"})
     if refmm:
         path = common.write_replay("C08", {"property": "C08", "kind": "correspondence-broken",
                                            "correspondence": "Lean reference semantics (Scfg/Py/Micro.lean) vs CPython", "mismatching_paths": refmm})
@@ -241,6 +252,7 @@ def run(ctx):
                    "for/else, break, continue; and/or chains in assignments, tests, call arguments); each: Lean bisimulation of reference semantics vs. "
                    "front-end CFG semantics (all decision sequences), CPython runs of both on every decision sequence up to depth 7, census",
            "cpython_paths": npaths, "refsem_vs_cpython_mismatches": refmm,
+           "front_end_model_compared": sum(1 for r in recs if "fe_model_same" in r), "front_end_model_mismatches": len(femm),
            "lean_verdicts": dict(Counter(r.get("lean", "not-run") for r in recs)),
            "classified_by_bounded_fallback": sum(1 for r in recs if r.get("classification") == "bounded"),
            "failing_programs": sum(len(v) for v in by.values()),
